@@ -244,6 +244,12 @@ func c02CLI(c *fw.Case, env *fw.Env, o *fw.Obs, p *c02Params) *fw.Obs {
 		return o
 	}
 	fp := filepath.Join(root, "data.csv")
+	if c.Seed%2 == 0 {
+		// the branch's file is a symbolic link; edits go to its target, as an editor writing in place does
+		os.WriteFile(filepath.Join(root, "real.csv"), nil, 0644)
+		os.Symlink(filepath.Join(root, "real.csv"), fp)
+		class += "/symlink"
+	}
 	os.WriteFile(fp, gen.ToCSV(t, 0), 0644)
 	args := []string{"commit", "main", fp, "first", "--no-progress", "--set-file", "--set-primary-key", "-n", "4"}
 	pkNames := gen.ColNames(t.Cols, p.T.PK)
@@ -291,7 +297,18 @@ func c02CLI(c *fw.Case, env *fw.Env, o *fw.Obs, p *c02Params) *fw.Obs {
 		m.Rows[0][len(m.Cols)-1] += "!"
 		if gen.Model(m.Rows, p.T.PK, len(m.Cols)).Dups == 0 {
 			os.WriteFile(fp, gen.ToCSV(m, 0), 0644)
-			out, err, pn = mon.Wrgl(wd, nil, "commit", "main", "third", "--no-progress", "--no-cache")
+			// the edit is two seconds younger than the cache entry made by the previous step (set explicitly, so that the
+			// step does not depend on how fast the machine is); the cached commit must notice it
+			if h, err := mon.OpenRepoHandle(wd); err == nil {
+				if tmp, err := h.RS.Get("heads/main-tmp"); err == nil {
+					if com, err := objects.GetCommit(h.DB, tmp); err == nil {
+						mt := time.Unix(com.Time.Unix()+2, 0)
+						os.Chtimes(fp, mt, mt)
+					}
+				}
+				h.Close()
+			}
+			out, err, pn = mon.Wrgl(wd, nil, "commit", "main", "third", "--no-progress")
 			h3, n3 := snap()
 			o.Ev("oracle_evaluations", 1)
 			if err != nil || pn != "" || h3 == h2 || n3 != n2+1 {
@@ -387,7 +404,7 @@ func init() {
 				}
 				l.Add("invariance", c02Params{T: s, Mode: "invariance"}, 0)
 			}
-			for i := 0; i < l.N(6, 100); i++ {
+			for i := 0; i < l.N(14, 200); i++ {
 				s := randTblSpec(rng, true)
 				if s.NCols == 1 {
 					s.NCols = 2
